@@ -15,6 +15,8 @@ import subprocess
 import sys
 import tempfile
 
+import functools
+
 import dill
 from edgegraph.output import nrpickler
 from edgegraph.structure import DirectedEdge, Link, UnDirectedEdge, Universe, Vertex
@@ -95,6 +97,11 @@ def decorate(rng, objs, mode):
         vs[-1].shared = shared
         vs[0].tshared = (1, 2, "t")
         vs[-1].tshared = vs[0].tshared
+        cb = vs[-1].add_to_universe
+        vs[0].cb = cb
+        vs[-1].cb = cb
+        vs[0].pf = functools.partial(helpers.neighbors, vs[-1])
+        vs[-1].pf = vs[0].pf
         # immutable containers shared by two objects and lying on a cycle through themselves
         t = (vs[-1], "cyc")
         vs[0].tcyc = t
@@ -277,6 +284,8 @@ def run_case(ctx, rng, cfg, desc, root, objs_all, batch):
         sub = ":deep_graph" if cfg.get("low_recursion") else ""
         if desc["source"] == "tuple_cycle" or desc.get("attrs") == "shared":
             sub += ":shared_immutable_container_on_cycle"
+        if desc["source"] == "shared_callable":
+            sub += ":shared_callable_referring_into_graph"
         ctx.violation(f"dump_raised:{res[1].__name__}{sub}",
                       f"nrpickler.{cfg['via']} raised {res[1].__name__} (protocol {cfg['proto']}) on {desc}", case)
         return
@@ -327,6 +336,23 @@ def build_from_desc(desc):
               zoo.OtherLink(u1, u1, attributes={"tag": 2}), DirectedEdge(vs[3], None, attributes={"tag": 3})]
         ml = zoo.MultiLink(vertices=[vs[0], vs[1], vs[0]], attributes={"tag": 4})
         objs = vs + [u0, u1] + es + [ml]
+    elif desc["source"] == "shared_callable":
+        # one callable object that refers back to a graph object and is held by two objects; the holder that is
+        # pickled first got it through attributes= (so it precedes _links/_universes in its __dict__)
+        hub = Vertex(attributes={"idx": 0})
+        kind = desc.get("kind", "method")
+        if kind == "method":
+            cb = hub.add_to_universe
+        elif kind == "partial":
+            cb = functools.partial(helpers.neighbors, hub, 1)
+        else:
+            cb = (hub.add_to_link, "x")
+        leaf = Vertex(attributes={"cb": cb, "idx": 1})
+        hub.cb = cb
+        leaf2 = Vertex(attributes={"idx": 2, "cb": cb})
+        if desc.get("linked"):
+            DirectedEdge(leaf, hub, attributes={"tag": 0})
+        objs = [leaf, leaf2, hub]
     elif desc["source"] == "tuple_cycle":
         # a tuple shared by two objects, on a cycle through the tuple itself
         u, v = Vertex(attributes={"idx": 0}), Vertex(attributes={"idx": 1})
@@ -350,6 +376,8 @@ def run(ctx):
     # deterministic scenarios (every shard runs a slice)
     fixed = [{"source": "nested", "attrs": a} for a in ("none", "containers", "shared", "big")]
     fixed += [{"source": "tuple_cycle", "linked": l, "attrs": "none"} for l in (False, True)]
+    fixed += [{"source": "shared_callable", "kind": k_, "linked": l, "attrs": "none"} for k_ in ("method", "partial", "tuple_of_method")
+              for l in (False, True)]
     fixed += [{"source": "chain", "n": n, "closed": c, "attrs": "none"} for n in (5, 50) for c in (False, True)]
     fixed += [{"source": "dense", "n": 12, "p": 0.5, "attrs": "containers", "dseed": 3}]
     k = 0
